@@ -88,25 +88,25 @@ package keeper
 // ---------------------------------------------------------------- records
 
 //@ func Keeper.SetWrkChainBlock(ctx, wrkchainId, wrkchainBlock) (err)
-//@   props C07 C08
+//@   props C07 C08 C18
 //@   nopanic
 //@   modifies wrk_store
 //@   ensures err == nil && wrk_store == blkPut(old(wrk_store), wrkchainId, wrkchainBlock)
 
 //@ func Keeper.IsWrkChainBlockRecorded(ctx, wrkchainId, height) (ok)
-//@   props C07 C08
+//@   props C07 C08 C18
 //@   nopanic
 //@   pure
 //@   ensures ok == blkHas(wrk_store, wrkchainId, height)
 
 //@ func Keeper.GetWrkChainBlock(ctx, wrkchainId, height) (b, found)
-//@   props C07 C08
+//@   props C07 C08 C18
 //@   pure
 //@   ensures found == blkHas(wrk_store, wrkchainId, height)
 //@   ensures found ==> b == blkGet(wrk_store, wrkchainId, height)
 
 //@ func Keeper.deleteWrkChainHash(ctx, wrkchainId, height) (err)
-//@   props C07 C08
+//@   props C07 C08 C18
 //@   nopanic
 //@   modifies wrk_store
 //@   ensures err == nil
@@ -167,7 +167,7 @@ package keeper
 //@   inline
 
 //@ func Keeper.GetLastWrkChainHeightInState(ctx, wrkchainID) (height)
-//@   props C07 C08
+//@   props C07 C08 C18
 //@   nopanic
 //@   pure
 //@   requires BLK_KEYED(wrk_store, wrkchainID)
